@@ -7,7 +7,7 @@ from typing import Any
 
 from harness.common import Ck
 from harness.c07_util import World
-from translate import c07_index_sites, c07_index_shapes
+from translate import c07_index_sites, c07_index_shapes, c07_index_del, c07_index_listops
 
 MANIFEST = dict(
     technique='Rocq proof (index invariant preserved by every operation incl. defaultdict reads, by induction over operation sequences on several maps; search() sound and complete both for the hand model and for every program shape that passes the generated obligations; make_unique loop termination by pigeonhole; CopySet iteration total and exception-free under arbitrary mutation; worldspawn pinned) + two fail-closed ast translators (census of writers/escapes/key sources; shapes of Entity.__setitem__, VMF.search, CopySet.__iter__) + vm_compute correspondences (operation sequences, search, search as written, iteration traces) + scan oracle on real VMF objects',
@@ -691,12 +691,42 @@ SHAPE_OBLIGATIONS = {
 }
 
 
-def shape_obligations(ck: Ck) -> None:
-    res = ck.instance_obligations(SHAPE_IMPORTS, SHAPE_OBLIGATIONS, name='shapes')
-    for name, ok in res.items():
-        if not ok:
-            ck.tie_broken.append(f'source shape obligation {name} (Gen/IndexShapes_gen.v)')
-    ck.extra['source_shapes'] = ck.extra.get('translated', {}).get('IndexShapes_gen')
+# Entity.__delitem__ (Gen/IndexDel_gen.v, theorem c07_delitem_as_written) and VMF.add_ent / VMF.remove_ent
+# (Gen/IndexListOps_gen.v, theorems c07_add_ent_as_written / c07_remove_ent_as_written)
+DEL_IMPORTS = ['SV.SM.IndexModel', 'SV.SM.IndexShapes', 'SV.SM.IndexMaint', 'SV.SM.IndexDel', 'SV.Gen.IndexDel_gen']
+DEL_OBLIGATIONS = {
+    'delitem_targetname_branch_rekeys_by_target_under_the_membership_test': 'del_targetname_ok gen_delitem_maint',
+    'delitem_refuses_the_classname': 'del_classname_refused gen_delitem_maint',
+    'delitem_other_keys_leave_the_indexes_alone': 'del_other_ok gen_delitem_maint',
+    'delitem_lookup_is_case_insensitive': 'del_loop_case_insensitive gen_delitem_loop',
+    'delitem_pops_the_stored_spelling': 'del_loop_pops_stored gen_delitem_loop',
+}
+LISTOPS_IMPORTS = ['SV.SM.IndexModel', 'SV.SM.IndexListOps', 'SV.Gen.IndexListOps_gen']
+LISTOPS_OBLIGATIONS = {
+    'remove_ent_leaves_the_worldspawn_indexed': 'remove_worldspawn_stays_indexed gen_remove_ent',
+    'remove_ent_leaves_an_entity_that_is_still_listed_indexed': 'remove_still_listed_stays_indexed gen_remove_ent',
+    'remove_ent_unlists_and_unindexes_any_other_entity': 'remove_unlists_and_unindexes gen_remove_ent',
+    'add_ent_lists_and_indexes_the_entity_exactly_once': 'add_ok gen_add_ent',
+}
+
+
+def shape_obligations(ck: Ck, ok_s: bool = True, ok_d: bool = False, ok_l: bool = False) -> None:
+    groups = [g for g in ((ok_s, SHAPE_IMPORTS, SHAPE_OBLIGATIONS, 'IndexShapes_gen'),
+                          (ok_d, DEL_IMPORTS, DEL_OBLIGATIONS, 'IndexDel_gen'),
+                          (ok_l, LISTOPS_IMPORTS, LISTOPS_OBLIGATIONS, 'IndexListOps_gen')) if g[0]]
+    # one coqc run for all generated files that exist (their definitions have distinct names)
+    imports: list[str] = []
+    obs: dict[str, str] = {}
+    where: dict[str, str] = {}
+    for _, imp, ob, gen in groups:
+        imports += [i for i in imp if i not in imports]
+        obs.update(ob)
+        where.update({k: gen for k in ob})
+    res = ck.instance_obligations(imports, obs, name='shapes')
+    for oname, good in res.items():
+        if not good:
+            ck.tie_broken.append(f'source shape obligation {oname} (Gen/{where.get(oname, "?")}.v)')
+    ck.extra['source_shapes'] = {g: ck.extra.get('translated', {}).get(g) for g in ('IndexShapes_gen', 'IndexDel_gen', 'IndexListOps_gen')}
 
 
 # ------------------------------------------------------------------------------------------------ main
@@ -744,7 +774,7 @@ def run(ck: Ck) -> None:
                'or removes; distinct by full history')
     ck.trusted.append('hand-written model SM/IndexModel.v (tied by the operation-sequence correspondence and the census translator on every run; '
                       'Entity.__setitem__ lookup, VMF.search and CopySet.__iter__ additionally by translator-generated shapes proved equal to it)')
-    ck.trusted.append('translate/c07_index_shapes.py (fail-closed symbolic walk of Entity.__setitem__, VMF.search, CopySet.__iter__)')
+    ck.trusted.append('translate/c07_index_shapes.py, c07_index_del.py, c07_index_listops.py (fail-closed symbolic walks of Entity.__setitem__ (lookup loop and index maintenance), Entity.__delitem__, VMF.add_ent, VMF.add_ents, VMF.remove_ent, VMF.search, CopySet.__iter__, _remove_copyset)')
     ck.assumptions += [
         'str.casefold leaves the empty string and the literals classname/targetname/worldspawn unchanged (hypotheses of every theorem; true of CPython)',
         'operations refer to Entity objects created with the same VMF as parent; vmf.add_ent(vmf.spawn) is outside the domain',
@@ -755,15 +785,18 @@ def run(ck: Ck) -> None:
     ok_t = ck.translate('IndexSites_gen', c07_index_sites.translate)
     side = ck.extra.get('translated', {}).get('IndexSites_gen', {})
     ok_s = ck.translate('IndexShapes_gen', c07_index_shapes.translate)
-    built = ck.build(['Props/C07.vo'] + (['SM/IndexCensus.vo'] if ok_t else []) + (['Gen/IndexShapes_gen.vo'] if ok_s else []))
+    ok_d = ck.translate('IndexDel_gen', c07_index_del.translate)
+    ok_l = ck.translate('IndexListOps_gen', c07_index_listops.translate)
+    built = ck.build(['Props/C07.vo'] + (['SM/IndexCensus.vo'] if ok_t else []) + (['Gen/IndexShapes_gen.vo'] if ok_s else [])
+                     + (['Gen/IndexDel_gen.vo'] if ok_d else []) + (['Gen/IndexListOps_gen.vo'] if ok_l else []))
     lap('translate+build')
     if built:
         # Print Assumptions of every theorem of Props/C07.v is one single-threaded coqc run of about 20 s: it runs in
         # the background while the obligations and correspondences below are evaluated; ck.theorems() then does its
         # usual bookkeeping on that output (same scratch file text, see _assumptions_in_background)
         finish_theorems = _assumptions_in_background(ck, 'Props/C07.v')
-        if ok_s:
-            shape_obligations(ck)
+        if ok_s or ok_d or ok_l:
+            shape_obligations(ck, ok_s, ok_d, ok_l)
             lap('shape_obligations')
         if ok_t:
             obs = {
@@ -792,7 +825,7 @@ def run(ck: Ck) -> None:
                     ck.tie_broken.append(f'census obligation {name} (Gen/IndexSites_gen.v)')
         # a changed hand-modelled function escalates the correspondence budget (never an alarm by itself)
         hand = {k: v for k, v in side.get('digests', {}).items() if k in MODEL_DIGESTS}
-        if side.get('digests') and (hand != MODEL_DIGESTS or not ok_s):
+        if side.get('digests') and (hand != MODEL_DIGESTS or not (ok_s and ok_d and ok_l)):
             ck.notes.append(f'hand-modelled functions changed since the model was written ({hand}): thorough correspondence budget')
             ck.extra['digest_escalation'] = True
         lap('census_obligations')
